@@ -272,6 +272,8 @@ def run_once(item, chooser, collect=None):
             rep("exception:%s" % type(exc).__name__, "run() raised %r" % (exc,), repr(exc), None)
     finally:
         SN.random = old
+    if not viol and info["periods"] != sim._iteration:
+        rep("period-end:skipped", "the network's end-of-period update ran %d times in %d simulated periods (early departures / admissions are decided there)" % (info["periods"], sim._iteration), info["periods"], sim._iteration)
     if not viol:
         occ, wq = real_place()
         if any(v is not None for v in occ.values()) or wq:
